@@ -26,9 +26,18 @@ const WORDS: &[&str] = &[
 ];
 const WRAPS: &[(&str, &str)] = &[
     ("", ""), ("", ""), ("", ""), ("(", ")"), ("\"", "\""), ("", "."), ("'", "',"), ("[", "]!"), ("", "?"), ("\"'", "'\""), ("", ":"), ("-", ";"), ("", "`"), ("{", "}.."),
-    // the escape character: a colon followed by a back-tick is punctuation, not part of the word
-    ("", ":`"), ("(", ":`)"), ("", ":`."), ("\"", ":`\""), ("", "`:"), ("", ".`"),
 ];
+/// the escape character: a colon followed by a back-tick is punctuation, not part of the word (selected by wrap
+/// bytes >= 224, so that the meaning of every earlier replay file is unchanged)
+const WRAPS_ESCAPED: &[(&str, &str)] = &[("", ":`"), ("(", ":`)"), ("", ":`."), ("\"", ":`\""), ("", "`:"), ("", ".`")];
+
+fn wrap_of(w: u8) -> (&'static str, &'static str) {
+    if w >= 224 {
+        WRAPS_ESCAPED[(w - 224) as usize % WRAPS_ESCAPED.len()]
+    } else {
+        WRAPS[w as usize % WRAPS.len()]
+    }
+}
 
 #[derive(Clone, Debug, Serialize, Deserialize, Hash)]
 pub enum StepKind {
@@ -124,7 +133,7 @@ pub fn run_case(run: &Run, c: &Case, st: &mut Stats) -> Result<(), Failure> {
     for step in &c.steps {
         let (l, w, t) = match &step.kind {
             StepKind::Type { word, wrap } => {
-                let (l, t) = WRAPS[*wrap as usize % WRAPS.len()];
+                let (l, t) = wrap_of(*wrap);
                 (l.to_string(), ws[*word as usize % ws.len()].clone(), t.to_string())
             }
             StepKind::Retype { k } => {
@@ -136,7 +145,7 @@ pub fn run_case(run: &Run, c: &Case, st: &mut Stats) -> Result<(), Failure> {
             StepKind::Suffixed { k, suffix, wrap } => {
                 let base = if typed.is_empty() { ws[*k as usize % ws.len()].clone() } else { typed[*k as usize % typed.len()].1.clone() };
                 let sk = &pools().suffix_keys;
-                let (l, t) = WRAPS[*wrap as usize % WRAPS.len()];
+                let (l, t) = wrap_of(*wrap);
                 if base.ends_with(':') || base.ends_with('`') {
                     continue;
                 }
